@@ -388,7 +388,56 @@ def r16_5(ctx, prog, crate):
                   ["location", "earliest-child"], "a group's location is not the minimum of its children's (%s)" % names_, b.where(0))
 
 
+PANIC_EXCEPTIONS = {
+    ("entry::generic::GenericBenchEntry::raw_name", "diverge:core::panicking::panic"):
+        "unreachable!() for (ty: None, const_value: None): the macro always emits a type or a const for a generic entry",
+    ("entry::generic::GenericBenchEntry::display_name", "diverge:core::panicking::panic"):
+        "same unreachable!() arm",
+    ("<util::sort::Tokenizer as std::iter::Iterator>::next", "assert:Overflow"):
+        "dev-profile overflow check of `kind_len += 1`; kind_len <= input.len() <= isize::MAX",
+}
+PANICKY_LAST = {"index", "index_mut", "unwrap", "expect", "unwrap_err", "expect_err", "split_at", "split_at_mut", "copy_from_slice",
+                "slice_error_fail", "unwrap_failed", "expect_failed", "panic_fmt", "begin_panic", "assert_failed", "swap", "split_off",
+                "remove", "insert", "truncate", "drain", "from_utf8", "to_owned_panic", "unreachable_unchecked"}
+
+
+def r16_6(ctx, prog, crate):
+    """'Sorting never panics' - conservative structural part: divan's own code reachable from sort_by_attr (including the
+    trait impls of local types handed to generic std code, e.g. Tokenizer/Token) contains no panic edge - no Assert
+    terminator, no diverging call, no call of a panicking std accessor (indexing/slicing, unwrap/expect, ...) - other than
+    the enumerated exceptions. User-provided PartialOrd/ToString callbacks are outside the claim."""
+    b = prog.body("entry::tree::EntryTree::sort_by_attr", crate)
+    if b is None:
+        return
+    bodies, ext, ind = prog.callee_closure([b], crate=crate, follow_generic_impls=True)
+    n = 0
+    for x in sorted(bodies, key=lambda y: y.path):
+        ctx.saw(x)
+        for i in sorted(x.live):
+            t = x.term(i)
+            n += 1
+            kind = None
+            if t["k"] == "assert":
+                kind = "assert:" + t["kind"]
+            elif t["k"] == "call":
+                c = x.call_at(i)
+                if t["t"] is None:
+                    kind = "diverge:" + c.callee
+                elif c.callee.rsplit("::", 1)[-1] in PANICKY_LAST and not c.callee.startswith(("std::option::Option::unwrap_or", "std::result::Result::unwrap_or")):
+                    kind = "panicking-call:" + c.callee
+            if kind is None:
+                continue
+            ctx.check((x.path, kind) in PANIC_EXCEPTIONS, "R16.6", [x.path, kind],
+                      "`%s` (reachable while sorting) has a panic edge: %s" % (x.path, kind), x.where(i))
+    ctx.anchor("R16.6", "terminators examined in code reachable from sort_by_attr", n, 200)
+    found = {x.path for x in bodies}
+    for want in ("util::sort::natural_cmp", "util::sort::cmp_int", "<util::sort::Tokenizer as std::iter::Iterator>::next",
+                 "<util::sort::Token as std::cmp::Ord>::cmp", "config::SortingAttr::cmp_bench_arg_names"):
+        ctx.check(want in found, "R16.6/ANCHOR", [want], "`%s` is not in the analysed closure" % want, None)
+
+
 def run(ctx, prog, crate):
+    r16_6(ctx, prog, crate)
     r16_1(ctx, prog, crate)
     r16_2(ctx, prog, crate)
     r16_3(ctx, prog, crate)
